@@ -3,7 +3,7 @@
 import json
 
 CLAIMED = {
-    "C01": ("graph", "§6 C01", "All histories over 3 task objects (shared ids, 2 WBSs; distinct ids, 1 WBS) are enumerated on the real objects and every call is judged by TLC against TaskGraph.tla's C01 predicates on the projected post-state, returned or raised; the design model MC_TaskGraph.tla is model-checked and its reachable set compared with the implementation's; seeded random histories over 6-8 objects extend the bound."),
+    "C01": ("graph", "§6 C01", "All histories over 3 task objects (shared ids, 2 WBSs; distinct ids, 1 WBS) are enumerated on the real objects and every call is judged by TLC against TaskGraph.tla's C01 predicates on the projected post-state, returned or raised; the design model MC_TaskGraph.tla is model-checked and its reachable set compared with the implementation's; a sorting universe (4 tasks in one list, keys that cannot be compared), dense dependency graphs over 6 tasks, walks through long-lived list objects and seeded random histories over 6-8 objects extend the bound; the repository's own tests are replayed call by call."),
     "C05": ("graph", "§6 C05", "Same exploration; TLC evaluates id uniqueness per WBS and per tree, exact lookup w[id] for every id and an absent one, DFS listing, and RuntimeError on id clashes, on every recorded call."),
     "C11": ("graph", "§6 C11", "Same exploration over 2-3 WBSs; TLC evaluates owner = reachability from the WBS roots after every call and that detached trees are accepted again."),
     "C15": ("graph", "§6 C15", "Same exploration; for every raising call TLC compares the complete projection before and after (ordered children, ordered link lists, owners, roots, attributes)."),
@@ -16,7 +16,7 @@ CLAIMED = {
     "C07": ("sched", "§6 C07", "Same executions; TLC checks start<=end for every task and every roll-up (start, end, estimate, spent, WBS.start/end)."),
     "C08": ("sched", "§6 C08", "Same executions (forward); TLC checks tightness on the final ledger, the exact date encoding from ledger positions, WBS order of dependency-free leaves, and independence from unrelated tasks with balancing off (paired run)."),
     "C09": ("sched", "§6 C09", "Same executions (backward); TLC checks deadline, every declared and inherited dependency at task and leaf level, late packing and the end-of-day date encoding."),
-    "C14": ("sched", "§6 C14", "Same executions plus unschedulable inputs (external predecessor without dates, future fixed end, never-available resources, hierarchy-closed cycles) under a watchdog; TLC classifies the outcome and demands RuntimeError exactly for Unschedulable(I)."),
+    "C14": ("sched", "§6 C14", "Same executions plus unschedulable inputs (external predecessor without dates, future fixed end, never-available resources, hierarchy-closed cycles), quotient calendars whose divisor is 0 on some days, float residues and mixed id types, under a watchdog; TLC classifies the outcome and demands RuntimeError exactly for Unschedulable(I)."),
     "C12": ("crit", "§6 C12", "CritPath.tla defines the zero-float leaves and, independently, the leaves on a longest chain; TLC checks the two definitions equal on every bounded input (MC_CritPath) and compares WBS.critical_path() of the real code with Critical(I) on every forest shape of <=4/5 tasks with link placements on leaves and summaries, ties, zero lengths, and integer/dyadic/decimal amounts, plus seeded random WBSs."),
     "C18": ("query", "§6 C18", "Query.tla defines Matches/Select for plain keywords, the twelve suffixes (with its own regular-expression search) and callables, and the effect of bulk assignment and remove_all; seeded worlds with present/absent/None attributes are queried through every list of the API and TLC compares the returned list (order and members), the unchanged world, the bulk-assigned attributes and the post-removal structure with the model."),
     "C10": ("copy", "§6 C10", "In every reachable state of the real objects of the small universe (shared ids, 2 WBSs, links to outside tasks) each WBS is cloned and sub-treed for every selection of <=2 roots; TLC judges the copy against TaskGraph.tla's state: members, fresh objects, owner, field values, root order, hierarchy, links inside the selection reproduced, links to other members dropped, links to outside tasks kept on the same objects (mirror side included), WBS attributes, source unchanged; independence is probed by mutating each side."),
